@@ -27,6 +27,7 @@ import operator
 import os
 import pickle
 import random
+import shutil
 
 from common.coqlit import Err, uncanon
 import pysparkling
@@ -151,8 +152,10 @@ def available_backends():
     return sorted(b)
 
 
-def make_context(backend, timed, schedules=()):
+def make_context(backend, timed, schedules=(), max_retries=None):
     kw = {}
+    if max_retries is not None:
+        kw['max_retries'] = max_retries
     pool = None
     if timed:
         kw['cache_manager'] = TimedCacheManager(timeout=3600.0)
@@ -542,7 +545,7 @@ def _free_program(spec):
     """spec -> function(sc) returning the observed values of the program on context sc."""
     data, slices, ops, seed = spec
 
-    def program(sc):
+    def program(sc, scratch):
         r = sc.parallelize(list(data), slices)
         persisted = []
         for op in ops:
@@ -582,6 +585,14 @@ def _free_program(spec):
             lambda: r.map(lambda x: (x, 1)).reduceByKey(operator.add).collect(),
             lambda: r.sample(True, 1.5, seed=seed + 1).persist().collect(),
             lambda: r.distinct().count(),
+            lambda: sorted(r.distinct().collect(), key=repr),
+            lambda: sorted(r.map(lambda x: (x, 1)).aggregateByKey((0, 0), lambda a, v: (a[0] + 1, a[1] + v),
+                                                                  lambda a, b: (a[0] + b[0], a[1] + b[1])).collect(), key=repr),
+            lambda: sorted(r.map(lambda x: (x, x)).foldByKey(zero, operator.add).collect(), key=repr),
+            lambda: sorted(((k, sorted(v, key=repr)) for k, v in r.map(lambda x: (len(str(x)), x)).groupByKey().collect()), key=repr),
+            lambda: list(r.toLocalIterator()),
+            lambda: list(r.map(lambda x: (x, sc.parallelize([x]).count())).toLocalIterator()),   # a job from inside a task
+            lambda: _save_and_read(r, scratch),
             r.collect,
         )]
         ids = {p.id(): n for n, p in enumerate(persisted)}
@@ -592,6 +603,28 @@ def _free_program(spec):
             out.append(sorted(k for k in cm.cache_obj if k not in stamped))
         return out
     return program
+
+
+_SAVE_SEQ = itertools.count()
+
+
+def _save_and_read(r, scratch):
+    """saveAsTextFile of a multi-partition dataset into a fresh directory; returns the files written and their lines."""
+    path = os.path.join(scratch, f'save_{os.getpid()}_{next(_SAVE_SEQ)}')
+    try:
+        r.map(str).saveAsTextFile(path)
+        if os.path.isfile(path):          # a single partition is written as one file
+            with open(path, 'rb') as f:
+                return [('<single file>', f.read().decode('utf8'))]
+        out = []
+        for name in sorted(os.listdir(path)):
+            with open(os.path.join(path, name), 'rb') as f:
+                out.append((name, f.read().decode('utf8')))
+        return out
+    finally:
+        if os.path.isfile(path):
+            os.remove(path)
+        shutil.rmtree(path, ignore_errors=True)
 
 
 def _free_spec(rng):
@@ -619,25 +652,41 @@ def _free_spec(rng):
 
 
 _EXTRA = {'programs': 0, 'backend_runs': 0}
+NESTED = 20   # position of the nested-job action in the output of a free program
 
 
 def extra_checks(rng, tier, workdir):  # pylint: disable=unused-argument
     n = 12 if tier == 'quick' else 150
     have = [b for b in available_backends() if b != 2]
+    scratch = workdir or os.path.join(os.environ.get('VERIF_ROOT', '/verif'), '.work', f'C03_free_{os.getpid()}')
+    os.makedirs(scratch, exist_ok=True)
+    try:
+        yield from _free_checks(rng, n, have, scratch)
+    finally:
+        if not workdir:
+            shutil.rmtree(scratch, ignore_errors=True)
+
+
+def _free_checks(rng, n, have, scratch):
     for _ in range(n):
         spec = _free_spec(rng)
         timed = int(rng.random() < 0.3)
         program = _free_program(spec)
         try:
-            want = program(make_context(2, timed)[0])
+            want = program(make_context(2, timed, max_retries=1)[0], scratch)
         except Exception as e:  # pylint: disable=broad-except
             yield ('dummy:free-program-raised', type(e).__name__, repr(spec), None)
             continue
         _EXTRA['programs'] += 1
+        # toLocalIterator runs its tasks while the job holds the context lock (repair e07529e; the lock itself is C04's
+        # clause): a task that starts a job is refused on every backend, it is not run later, outside the lock
+        if want[0] and want[NESTED] != ('raised', 'ContextIsLockedException'):
+            yield ('dummy:free-program:job-started-inside-a-toLocalIterator-task-was-accepted',
+                   f'{want[NESTED]!r} instead of ContextIsLockedException', repr(spec), None)
         for b in have:
-            sched = [[rng.randrange(spec[1]) for _ in range(rng.randint(0, 80))] for _ in range(40)]
+            sched = [[rng.randrange(spec[1]) for _ in range(rng.randint(0, 80))] for _ in range(60)]
             try:
-                got = program(make_context(b, timed, sched)[0])
+                got = program(make_context(b, timed, sched, max_retries=1)[0], scratch)
             except Exception as e:  # pylint: disable=broad-except
                 yield (f'{BACKEND_NAMES[b]}:free-program-raised:{type(e).__name__}', 'program raised on this backend only',
                        repr((spec, timed)), None)
@@ -647,6 +696,8 @@ def extra_checks(rng, tier, workdir):  # pylint: disable=unused-argument
                 which = next(i for i, (g, w) in enumerate(zip(got, want)) if g != w)
                 names = ['collect', 'count', 'second-collect', 'coalesce', 'sampleByKey', 'reduce', 'fold', 'aggregate', 'take',
                          'first', 'zipWithUniqueId', 'zipWithIndex', 'reduceByKey', 'poisson-sample-persist', 'distinct-count',
+                         'distinct', 'aggregateByKey', 'foldByKey', 'groupByKey', 'toLocalIterator', 'nested-job-in-toLocalIterator',
+                         'saveAsTextFile',
                          'last-collect', 'cache', 'unstamped']
                 yield (f'{BACKEND_NAMES[b]}:free-program:{names[which]}-differs-from-default-executor',
                        f'{names[which]}: {got[which]!r} instead of {want[which]!r}', repr((spec, timed, sched[:3])), None)
